@@ -10,6 +10,8 @@ def sig(s, trace, why):
     closes = [e["code"] for e in trace if e.get("ev") == "h3_close"]
     cfg = s.get("cfg", {})
     feat = "credit3+grease" if cfg.get("uni_credit") == 3 and cfg.get("grease") else "cfg"
+    if s.get("part") == "C":
+        return f"c04:C:{s.get('role')}:chunking:close-{closes[0] if closes else 'none'}"
     if s.get("part") == "A":
         return f"c04:A:{s.get('role')}:{feat}:close-{closes[0] if closes else 'none'}"
     return f"c04:B:{s.get('role')}:close-{closes[0] if closes else 'none'}"
@@ -17,13 +19,15 @@ def sig(s, trace, why):
 
 def run(tier, chk):
     wd = vlib.workdir("C04")
-    m, k = (2, 2) if tier == "quick" else (3, 3)
-    scns = common.gen_scenarios(chk, wd, "C04_Gen", cfg_text=f"SPECIFICATION Spec\nCONSTANTS M = {m}\n K = {k}\nINVARIANT Emit\nCHECK_DEADLOCK FALSE\n", workers=8)
+    m, k, mc, pairs = (2, 2, 2, "FALSE") if tier == "quick" else (3, 3, 2, "TRUE")
+    scns = common.gen_scenarios(chk, wd, "C04_Gen", cfg_text=f"SPECIFICATION Spec\nCONSTANTS M = {m}\n K = {k}\n MC = {mc}\n Pairs = {pairs}\nINVARIANT Emit\nCHECK_DEADLOCK FALSE\n", workers=8)
     common.run_sim(chk, wd, scns, "C04_Trace", shards=14, sig_of=sig)
     chk.exhaustive = True
     chk.distinct_nontrivial = len(scns)
     chk.rule = (f"part A: every control frame sequence up to length {m} over a 14-letter alphabet x (open, FIN, RESET) x (server, client) x 4 sending-side configurations "
                 f"(grease, 3 or ample uni credit, whole or 1-byte writes, credit granted late); part B: every ordered {k}-tuple of 16 stream scripts in every interleaving; "
+                f"part C: SETTINGS + every sequence of up to {mc} frames over (unknown frames with payload in 1- and 2-byte type form, GOAWAY, MAX_PUSH_ID, second SETTINGS) cut at every single position"
+                f"{', every pair of positions' if pairs == 'TRUE' else ''} and into single bytes, open or FIN; "
                 "each executed on the real endpoint, the trace validated by C04_Trace at every quiescent point")
     chk.assumptions = ["push streams and CANCEL_PUSH to a client are unconstrained (R2)", "unknown frame before SETTINGS is skipped, as the property states"]
 
